@@ -36,6 +36,8 @@ type sessImpl struct {
 	cfg   map[string]string
 	bs    string
 	wires int
+	appMsg *quickfix.Message // the application's message object, reused by every `send`
+	lstore *logStore         // the logging wrapper of the session's store
 	// sched=2: weekly window; the instant `stime out` asks about
 	weekly    bool
 	weeklyOut time.Time
@@ -198,6 +200,7 @@ func (s *sessImpl) build(kv map[string]string) string {
 		st.Set(config.TransportDataDictionary, p)
 	}
 	s.weekly = false
+	s.appMsg = nil
 	var created time.Time
 	if kv["sched"] == "1" {
 		now := time.Now().UTC()
@@ -229,7 +232,7 @@ func (s *sessImpl) build(kv map[string]string) string {
 		if !created.IsZero() {
 			ms.SetCreationTime(created)
 		}
-	}}, st, quickfix.NewNullLogFactory(), scriptApp{s})
+	}, wrapped: func(ls *logStore) { s.lstore = ls }}, st, quickfix.NewNullLogFactory(), scriptApp{s})
 	if err != nil {
 		panic("cannot build session: " + err.Error())
 	}
@@ -371,6 +374,11 @@ func (s *sessImpl) observe(status string) string {
 	if closed {
 		obs = append(obs, "closed")
 	}
+	if s.lstore != nil {
+		for _, n := range s.lstore.changed() {
+			obs = append(obs, fmt.Sprintf("store mutated %d", n)) // a stored message is no longer the bytes that were saved
+		}
+	}
 	s.log = nil
 	st := stateNames[s.v.StateName()]
 	if st == "" {
@@ -458,7 +466,15 @@ func (s *sessImpl) exec(op string) string {
 			s.v.Stop()
 			return s.observe("ok")
 		case "send":
-			m := quickfix.NewMessage()
+			// ONE message object per session, emptied and filled again for every send (an application that keeps its order
+			// message around and changes a few fields): what was sent, stored and queued under earlier numbers must not change
+			if s.appMsg == nil {
+				s.appMsg = quickfix.NewMessage()
+			}
+			m := s.appMsg
+			m.Header.Clear()
+			m.Body.Clear()
+			m.Trailer.Clear()
 			m.Header.SetString(35, "D")
 			for _, f := range w[1:] {
 				p := strings.SplitN(f, "=", 2)
@@ -933,6 +949,9 @@ func (g *sessGen) randomInbound(via string) {
 		h.orig = "@" + strconv.Itoa(r.rangeInt(-60, -21))
 		if r.chance(1, 6) {
 			h.orig = "@" + strconv.Itoa(r.rangeInt(25, 60)) // later than SendingTime
+		} else if r.chance(1, 7) {
+			h.orig = "garbage" // a duplicate whose OrigSendingTime does not read as a time: rejected, and nothing consumed
+			g.o.kind("possdup-low.orig-garbled")
 		}
 	}
 	if (g.state == "Resend" || g.state == "Pending:Resend") && r.chance(1, 2) {
